@@ -113,6 +113,8 @@ fn self_test() -> Result<usize, String> {
     Ok(n + 1)
 }
 
+static VIA_TEXT: std::sync::atomic::AtomicU64 = std::sync::atomic::AtomicU64::new(0);
+
 pub fn run(ctx: &Ctx) {
     ctx.set_rule(
         "Generated: every node kind x every ordered operand tuple of the boundary pool and of a mid-range 'plain' pool (exhaustive \
@@ -243,7 +245,16 @@ pub fn run(ctx: &Ctx) {
                     format!("{} => {}", case.render(), me::show_model(&o.model))
                 });
             }
-            judge(&case, &o.actual, &o.model)
+            judge(&case, &o.actual, &o.model)?;
+            if bytes.first().copied().unwrap_or(1) % 16 == 0 {
+                if let Some(parsed) = through_text(&case.expr, bytes) {
+                    VIA_TEXT.fetch_add(1, std::sync::atomic::Ordering::Relaxed);
+                    let c2 = EvalCase { expr: parsed, ..case.clone() };
+                    let o2 = observe(&c2);
+                    judge(&c2, &o2.actual, &o2.model).map_err(|i| Issue::new(format!("{}:via-text", i.sig), i.msg))?;
+                }
+            }
+            Ok(())
         },
         |bytes| mk(bytes).to_json(),
         "evalcase",
@@ -253,6 +264,7 @@ pub fn run(ctx: &Ctx) {
             (c.to_json(), i)
         }),
     );
+    ctx.extra("random_cases_also_evaluated_through_text", serde_json::json!(VIA_TEXT.load(std::sync::atomic::Ordering::Relaxed)));
 }
 
 pub fn replay(j: &serde_json::Value) -> Option<Verdict> {
